@@ -1024,6 +1024,17 @@ func (g *textGen) mutate(t map[string]string, own func(string) bool, region int,
 			}
 		}
 	}
+	// a file is edited and, in the same commit, copied byte for byte to a new path: two paths with
+	// identical new contents, one modified, one new (reported in full)
+	if g.r.Intn(5) == 0 && len(goFiles) > 0 {
+		p := goFiles[g.r.Intn(len(goFiles))]
+		if c, ok := t[p]; ok {
+			t[p] = g.edit(c, region)
+			g.uniq++
+			t[filepath.Join(histDirs[g.r.Intn(len(histDirs))], fmt.Sprintf("twin%d.go", g.uniq))] = t[p]
+			count("edit:modified+byte-identical-copy")
+		}
+	}
 	for k := 1 + g.r.Intn(3); k > 0; k-- {
 		op := g.r.Intn(100)
 		switch {
